@@ -394,12 +394,12 @@ var unsupported = map[string]map[string]string{
 	"json": {
 		"|elapsed": "J11 pipeline JSON: MarshalJSON replaces the duration arguments of the live elapsed/holtWinters node by strings (marshalling changes the pipeline)", "|holtWinters": "J11 pipeline JSON: MarshalJSON replaces the duration arguments of the live elapsed/holtWinters node by strings (marshalling changes the pipeline)", "|holtWintersWithFit": "J11 pipeline JSON: MarshalJSON replaces the duration arguments of the live elapsed/holtWinters node by strings (marshalling changes the pipeline)",
 		"~child-of-shadowing-node": "J10 pipeline JSON: children of combine / k8sAutoscale cannot be read back (a struct field named like a chain method, Max/Min, makes the node fail the chain-node interface check)",
-		"|top":    "J8 pipeline JSON: top/bottom read back with count 0 and without their tags (only the args list is restored)",
-		"|bottom": "J8 pipeline JSON: top/bottom read back with count 0 and without their tags (only the args list is restored)",
+		"|percentile": "J8 pipeline JSON: InfluxQL function nodes with parameters (percentile, top/bottom, movingAverage, elapsed, holtWinters) are read back with zero parameters in their reducers (only the args list is restored)", "|movingAverage": "J8 pipeline JSON: InfluxQL function nodes with parameters (percentile, top/bottom, movingAverage, elapsed, holtWinters) are read back with zero parameters in their reducers (only the args list is restored)",
+		"|top":    "J8 pipeline JSON: InfluxQL function nodes with parameters (percentile, top/bottom, movingAverage, elapsed, holtWinters) are read back with zero parameters in their reducers (only the args list is restored)",
+		"|bottom": "J8 pipeline JSON: InfluxQL function nodes with parameters (percentile, top/bottom, movingAverage, elapsed, holtWinters) are read back with zero parameters in their reducers (only the args list is restored)",
 		"~any-int": "J7 pipeline JSON: an integer value of an untyped property (default/sideload field, fill, handler attribute) is read back as a float",
 		"|barrier": "J6 pipeline JSON: node kind unknown to Unmarshal: barrier",
 		"|trickle": "J6 pipeline JSON: node kind unknown to Unmarshal: trickle",
-		"|sample": "J5 pipeline JSON: Unmarshal panics on a sample node (Sample(0) is handed an int, not an int64)",
 		"~star": "J4 pipeline JSON: a '*' group-by dimension is read back as a generic map, not a star node",
 		"|queryFlux": "J3 pipeline JSON: node cannot be read back, a duration is written as a string and decoded as a number: queryFlux.period",
 		"|httpPost":  "J3 pipeline JSON: node cannot be read back, a duration is written as a string and decoded as a number: httpPost.timeout",
